@@ -61,6 +61,8 @@ class Interp:
             return z3.BoolVal(bool(v.obj))
         if isinstance(v, VOpt):
             return z3.And(z3.Not(v.none), self.truthy(v.val))
+        if isinstance(v, VDyn):
+            return z3.Or(z3.And(v.kind == 1, v.i != 0), z3.And(v.kind == 2, z3.Length(v.s) > 0), v.kind == 3)
         raise OutOfSubset('truth value of %r' % (v,))
 
     def test(self, v):
@@ -889,7 +891,19 @@ class Interp:
             return S.int_compare(S._FLIP[type(op)](), None, a.term, b.len_of, None)
         return None
 
+    def dyn_equal(self, d, o):
+        if isinstance(o, VDyn):
+            return z3.And(d.kind == o.kind, z3.Implies(d.kind == 1, d.i == o.i), z3.Implies(d.kind == 2, d.s == o.s),
+                          z3.Implies(d.kind == 3, d.i == o.i))
+        if isinstance(o, VNone): return d.kind == 0
+        if isinstance(o, VBool): return z3.And(d.kind == 1, d.i == z3.If(o.term, 1, 0))
+        if isinstance(o, VInt): return z3.And(d.kind == 1, d.i == o.term)
+        if isinstance(o, VStr): return z3.And(d.kind == 2, d.s == o.term)
+        return z3.BoolVal(False)
+
     def equal(self, a, b):
+        if isinstance(a, VDyn): return self.dyn_equal(a, b)
+        if isinstance(b, VDyn): return self.dyn_equal(b, a)
         if isinstance(a, VNone) or isinstance(b, VNone):
             return z3.BoolVal(isinstance(a, VNone) and isinstance(b, VNone))
         r = self.lazy_len_compare(ast.Eq(), a, b)
@@ -1019,6 +1033,11 @@ class Interp:
             if default is not None:
                 return default
             self.raise_py(AttributeError)
+        if isinstance(obj, VDyn):
+            # attribute / method access on a dynamically typed value: only its str view has methods we model
+            if not self.ctx.branch(obj.kind == 2):
+                self.raise_py(AttributeError)
+            return VMethod(VStr(obj.s), name)
         if isinstance(obj, (VStr, VBytes, VList, VDict, VChunks, VEmptyList, VTuple, VInt, VOpaque, VPyConst, VGen)):
             return VMethod(obj, name)
         if isinstance(obj, VFunc):
@@ -1160,6 +1179,16 @@ class Interp:
                 return self.call_by_contract(c, allargs, kwargs, node)
             raw = getattr(fn, '__func__', fn)
             if id(raw) in self.world.inline:
+                return self.run_function(raw, allargs, kwargs)
+            # a helper of the package without a contract of its own (e.g. after an extract-method
+            # refactoring): verified as part of its caller by inlining, to a small depth
+            try:
+                import inspect as _i, os as _o
+                src = _i.getsourcefile(raw) or ''
+            except TypeError:
+                src = ''
+            root = _o.path.realpath(_o.environ.get('TXDBUS_REPO', '/repo')) + _o.sep
+            if src and _o.path.realpath(src).startswith(root) and len(self.frames) < 5:
                 return self.run_function(raw, allargs, kwargs)
             raise OutOfSubset('call to %s without contract or model' % getattr(fn, '__qualname__', fn))
         if isinstance(f, VClass):
